@@ -18,6 +18,19 @@ Definition mk_named (n : str) (ks : list tree) : tree := T None n [] ks.
 
 Definition all_eqb (c : N) (s : str) : bool := forallb (N.eqb c) s.
 
+(* same names and same shape (tags and attributes play no role in a rendering) *)
+Fixpoint same_names (a b : tree) : bool :=
+  match a, b with
+  | T _ n _ ks, T _ m _ ls =>
+      str_eqb n m &&
+      (fix go (x y : list tree) : bool :=
+         match x, y with
+         | [], [] => true
+         | p :: x', q :: y' => same_names p q && go x' y'
+         | _, _ => false
+         end) ks ls
+  end.
+
 (* blanks at both ends cannot be recovered from a rendering: names are compared up to them *)
 Definition blank : str := [32%N].
 Definition trim (s : str) : str := strip s blank.
@@ -95,7 +108,7 @@ Definition v_decode (w : nat) (out : list vline) : list tree :=
 
 Definition v_decodable (st : vstyle) (t : tree) (out : list vline) : bool :=
   match v_decode (vs_width st) out with
-  | [t'] => tree_eqb t' t
+  | [t'] => same_names t' t
   | _ => false
   end.
 
@@ -138,7 +151,7 @@ Definition v_decode_text (st : vstyle) (lines : list str) : option (list tree) :
 Definition v_text_decodable (st : vstyle) (t : tree) (lines : list str) : bool :=
   negb (vstyle_distinct st) ||
   match v_decode_text st lines with
-  | Some [t'] => tree_eqb t' t
+  | Some [t'] => same_names t' t
   | _ => false
   end.
 
@@ -462,18 +475,19 @@ Definition prop_C18_h (gl : hglyphs) (inter : bool) (t : tree) (out : list str) 
 (* 3. dot / mermaid: vertices and edges *)
 
 (* parent link of every node below the root, as (pre-order index of the parent, pre-order index of
-   the node), in pre-order of the node *)
-Fixpoint plinks (parent : nat) (i : nat) (t : tree) : list (nat * nat) * nat :=
+   the node), in pre-order of the node; [plinks i t]: t's root has pre-order index i, the second
+   component is the first index after t *)
+Fixpoint plinks (i : nat) (t : tree) : list (nat * nat) * nat :=
   match t with
   | T _ _ _ ks =>
       (fix go (l : list tree) (next : nat) : list (nat * nat) * nat :=
          match l with
          | [] => ([], next)
-         | k :: r => let (a, n1) := plinks i next k in
+         | k :: r => let (a, n1) := plinks next k in
                      let (b, n2) := go r n1 in ((i, next) :: a ++ b, n2)
          end) ks (S i)
   end.
-Definition parent_links (t : tree) : list (nat * nat) := fst (plinks 0 0 t).
+Definition parent_links (t : tree) : list (nat * nat) := fst (plinks 0 t).
 
 (* [verts] = (id, label) of the emitted vertices, [edges] = (source id, destination id).
    Exactly one vertex per node (listed in pre-order) with pairwise distinct ids and the node's name
